@@ -52,7 +52,9 @@ TRUSTED_BASE = [
     "correspondence run only",
 ]
 ASSUMPTIONS = [
-    "WellSized: 0 < sigLen(k) <= len(key bytes)+2 for every key that parses (re-checked on every key met; holds for all 5 curves)",
+    "WellSized: sigLen(k) > 0 and only signatures of exactly sigLen(k) bytes verify (sampled: one authentic datagram per key met, "
+    "signature shortened / extended by one byte). NOT assumed any more: sigLen <= len(key encoding)+2 — false for the "
+    "compressed-point encodings the parser accepts (evidence hypothesis_checks.keys_with_signature_longer_than_encoding_plus_2)",
     "Canon: key_from_public_bin(c).key_to_bin() == c for canonical c (re-checked on every key met)",
     "NetOK: Network.verified_by_public_key_bin[k] is a Peer whose key_to_bin() is k — a run-time invariant of network.py that "
     "no theorem derives; sampled on the live index after every delivery for the entries that delivery prepared, looked up or "
@@ -299,6 +301,9 @@ async def sc_dht(cap, cls, curve):
         try:
             dn = lambda x: Node(x.my_peer.key.pub().key_to_bin(), x.endpoint.wan_address)  # noqa: E731
             b.overlay.store[a.my_peer.mid].append(dn(a))
+            # … and a third party (key T at a's address) that b merely NAMES in its connect-peer-response to c
+            tk = rust().PrivateKey(b"LibNaCLSK:" + bytes(_random.randrange(256) for _ in range(64)))
+            b.overlay.store[a.my_peer.mid].append(Node(bytes(tk.pub().key_to_bin()), a.endpoint.wan_address))
             a.overlay.store_for_me[a.my_peer.mid].append(dn(b))
         except BaseException:
             pass
@@ -431,6 +436,39 @@ async def capture_all(ctx: Ctx, tables, rounds: int, only: str | None = None):
 
 
 # ------------------------------------------------------------------------------------------------ mutation operators
+def compressed_encodings(pub: bytes):
+    """the two compressed-point DER encodings (parity 02 / 03) of an uncompressed EC SubjectPublicKeyInfo; [] if `pub` is not one.
+    The Rust parser accepts them; they are SHORTER than the key's signatures (sigLen > len(key)+2)."""
+    try:
+        def rd(b, i):
+            if b[i + 1] < 0x80:
+                return b[i + 1], i + 2
+            n = b[i + 1] & 0x7f
+            return int.from_bytes(b[i + 2:i + 2 + n], "big"), i + 2 + n
+
+        def enc(tag, body):
+            ln = len(body)
+            if ln < 0x80:
+                return bytes([tag, ln]) + body
+            if ln < 0x100:
+                return bytes([tag, 0x81, ln]) + body
+            return bytes([tag, 0x82]) + ln.to_bytes(2, "big") + body
+        if pub[0] != 0x30:
+            return []
+        _, i = rd(pub, 0)
+        la, j = rd(pub, i)
+        alg = pub[i:j + la]
+        k = j + la
+        lb, q = rd(pub, k)
+        bits = pub[q:q + lb]
+        if pub[i] != 0x30 or pub[k] != 0x03 or bits[0] != 0 or bits[1] != 4:
+            return []
+        x = bits[2:][:len(bits[2:]) // 2]
+        return [enc(0x30, alg + enc(0x03, bytes([0, par]) + x)) for par in (2, 3)]
+    except BaseException:
+        return []
+
+
 def regions(d: bytes, kl: int, n: int):
     """position classes of a well-formed signed datagram"""
     ln = len(d)
@@ -561,6 +599,15 @@ def mutants_of(ctx: Ctx, pk: dict, pool: list, tables_by_name: dict, other_keys:
     out.append((ov, nc, "noncanonical-key", "junk-unsigned"))
     body = nc[:-n]
     out.append((ov, body + bytes(sk.signature(body)), "noncanonical-key", "junk-resigned-by-owner(authentic)"))
+    # a SHORTER encoding of the same key pair (compressed point; signature longer than key field + 2), signed by the owner
+    for ck in compressed_encodings(sp["key_field"]):
+        body = d[:23] + len(ck).to_bytes(2, "big") + ck + d[25 + kl:-n]
+        sg_ = bytes(sk.signature(body))
+        if spec_eval(body + sg_)["authentic"]:
+            out.append((ov, body + sg_, "noncanonical-key", "compressed-point-resigned-by-owner(authentic)"))
+            out.append((ov, body + d[-n:], "noncanonical-key", "compressed-point-old-signature"))
+            head2 = d[:23] + len(ck).to_bytes(2, "big") + ck       # no payload at all: the signed part is header + key only
+            out.append((ov, head2 + bytes(sk.signature(head2)), "noncanonical-key", "compressed-point-no-payload(authentic)"))
     return out
 
 
@@ -899,6 +946,7 @@ async def run_async(ctx: Ctx, use_model: bool, scale: dict):
     keys_seen = {}
     lines, expected = [], []
     hyp_live = {"entries_checked": 0, "netok_violations": 0}
+    exact_seen = set()
     auth_keys = {}          # receiver -> keys authenticated by some delivered datagram carrying its prefix
     accepted = {}           # receiver -> [(src, data)] of deliveries that entered a handler (for history replays)
     try:
@@ -936,9 +984,23 @@ async def run_async(ctx: Ctx, use_model: bool, scale: dict):
             netw = node.overlay.network
             for k in set(watch) | set(new_keys):
                 pr = netw.verified_by_public_key_bin.get(k)
-                hyp_live["entries_checked"] += 1
-                if pr is not None and bytes(pr.public_key.key_to_bin()) != bytes(k):
-                    hyp_live["netok_violations"] += 1
+                if pr is not None:
+                    hyp_live["entries_checked"] += 1          # only entries that exist are counted
+                    if bytes(pr.public_key.key_to_bin()) != bytes(k):
+                        hyp_live["netok_violations"] += 1
+            # WellSized.exact on the real verifier: nothing shorter or longer than sigLen verifies (once per key)
+            if sp["authentic"] and sp["canon"] not in exact_seen:
+                exact_seen.add(sp["canon"])
+                pk_ = real_parse(sp["key_field"])[0]
+                n_ = sp["n"]
+                try:
+                    bad = pk_.verify(data[-n_:] + b"\0", data[:-n_]) or pk_.verify(data[-n_ + 1:], data[:-n_]) \
+                        or pk_.verify(data[-n_ - 1:], data[:-n_ - 1])
+                except BaseException:
+                    bad = False
+                hyp_live["siglen_exact_checked"] = hyp_live.get("siglen_exact_checked", 0) + 1
+                if bad:
+                    hyp_live["siglen_exact_violations"] = hyp_live.get("siglen_exact_violations", 0) + 1
             if pre:
                 undo_pre(node, pre, [sp["canon"]] if sp["canon"] else [])
 
@@ -1098,8 +1160,10 @@ async def run_async(ctx: Ctx, use_model: bool, scale: dict):
     hyp = {"keys": 0, "wellsized_violations": 0, "canon_violations": 0, "netok_violations": 0}
     for kb, (canon, n) in keys_seen.items():
         hyp["keys"] += 1
-        if not (0 < n <= len(kb) + 2):
+        if n <= 0:
             hyp["wellsized_violations"] += 1
+        if n > len(kb) + 2:
+            hyp["keys_with_signature_longer_than_encoding_plus_2"] = hyp.get("keys_with_signature_longer_than_encoding_plus_2", 0) + 1
         pc = real_parse(canon)
         if pc is None or pc[2] != canon:
             hyp["canon_violations"] += 1
@@ -1108,6 +1172,8 @@ async def run_async(ctx: Ctx, use_model: bool, scale: dict):
             if bytes(peer.public_key.key_to_bin()) != bytes(k):
                 hyp["netok_violations"] += 1
     hyp["netok_live_entries_checked"] = hyp_live["entries_checked"]
+    hyp["siglen_exact_keys_checked"] = hyp_live.get("siglen_exact_checked", 0)
+    hyp["wellsized_violations"] += hyp_live.get("siglen_exact_violations", 0)
     hyp["netok_violations"] += hyp_live["netok_violations"]
     ctx.extra["hypothesis_checks"] = hyp
     if hyp["wellsized_violations"] or hyp["canon_violations"] or hyp["netok_violations"]:
@@ -1149,7 +1215,7 @@ async def run_async(ctx: Ctx, use_model: bool, scale: dict):
 
 
 SCALES = {
-    "quick": {"capture_rounds": 1, "per_pair": 1, "flips": 2, "every_byte_upto": 0, "every_byte_stride": 1,
+    "quick": {"capture_rounds": 1, "per_pair": 1, "flips": 1, "every_byte_upto": 0, "every_byte_stride": 1,
               "unsigned_samples": 40, "pack_cases": 20, "identity_stride": 2},
     "thorough": {"capture_rounds": 3, "per_pair": 1, "flips": 8, "every_byte_upto": 1500, "every_byte_stride": 4,
                  "unsigned_samples": 300, "pack_cases": 300, "identity_stride": 1},
@@ -1286,13 +1352,15 @@ async def replay(ctx: Ctx, rec: dict):
     from ipv8.messaging.interfaces.udp.endpoint import UDPv4Address
     src = UDPv4Address(*r.get("src", ("1.2.3.4", 5)))
     apply_pre(node, [(bytes.fromhex(k), UDPv4Address(*a)) for k, a in r.get("verified_before", [])])
+    sp = spec_eval(data)
+    pa_ = node.overlay.network.get_verified_by_address(src)
+    watch = [bytes.fromhex(k) for k, _ in r.get("verified_before", [])] + \
+            [x for x in (sp["canon"], sp["key_field"], bytes(pa_.public_key.key_to_bin()) if pa_ else None) if x]
     obs.start()
     try:
-        events, new_keys, _moved = await deliver(node, obs, src, data, [bytes.fromhex(k) for k, _ in
-                                                                       r.get("verified_before", [])])
+        events, new_keys, moved = await deliver(node, obs, src, data, watch)
     finally:
         obs.stop()
-    sp = spec_eval(data)
     h = handler_for(tbn[r["overlay"]], data)
     entered = [e for e in events if e[0][0] in ("handler",)]
     avp = [e for e in events if e[0][0] == "add_verified_peer"]
@@ -1303,8 +1371,23 @@ async def replay(ctx: Ctx, rec: dict):
                          or data[:22] != tbn[r["overlay"]]["prefix"])
     bad = bad or any(peer_key_of(e[1]) not in (None, sp["canon"]) for e in entered)
     bad = bad or bool(new_keys and not sp["authentic"])
+    # the same per-delivery oracles as the run: stored Peer re-pointed, payloads not from the signed bytes
+    moved_bad = [k for k in moved
+                 if not (sp["authentic"] and (real_parse(k) or (None, None, k))[2] == sp["canon"]
+                         and data[:22] == tbn[r["overlay"]]["prefix"])]
+    payload_bad = False
+    if sp["authentic"] and h is not None and h["kind"] in ("signed", "signedWd") and entered:
+        try:
+            want = node.overlay.serializer.unpack_serializable_list(
+                h["payload_classes"], bytes(23) + data[25 + len(sp["key_field"]):-sp["n"]], offset=23)
+            got = [v for v in entered[-1][2].values() if hasattr(v, "to_pack_list")]
+            payload_bad = len(got) == len(want) and [g.to_pack_list() for g in got] != [w.to_pack_list() for w in want]
+        except BaseException:
+            payload_bad = False
+    bad = bad or bool(moved_bad) or payload_bad
     print(f"replay: {r['overlay']} msg {data[22] if len(data) > 22 else '-'} operator {r.get('operator')}: "
           f"spec authentic={sp['authentic']}; handler entered={any_entry}; new verified keys={len(new_keys)}; "
+          f"stored peers re-pointed without authentication={len(moved_bad)}; payloads differ from signed bytes={payload_bad}; "
           f"property {'FAILS' if bad else 'holds'}")
     if bad:
         ctx.oracle_fail("replay", "replayed input still fails", r)
